@@ -1,7 +1,6 @@
 package driver
 
 import (
-	"fmt"
 	"os"
 
 	"github.com/flowmatters/openwater-core/sim"
@@ -58,6 +57,8 @@ type cellCase struct {
 	Arbitrary            bool // state rows hold arbitrary small non-negative values
 	Snapped              bool // some inputs sit exactly on table knots / thresholds
 	Mixed                bool // cells differ in state-vector width (zero-padded rows)
+	WidestFirst          bool // cell 0 has the widest state vector (what InitialiseStates supports)
+	ForeignX4            bool // GR4J states produced under another X4 (store lengths differ from the parameter's)
 	own                  []int
 	cols                 [][]float64
 	inBlocks             [][][]float64 // [block][input][t]
@@ -107,7 +108,19 @@ func drawCellCase(w *simrt.Tape, maxCells, maxT int) *cellCase {
 		row := initialStateRow(c.Model, c.desc, col, c.MaxDim)
 		if c.Warm && len(row) > 0 {
 			wt := 1 + w.Choose(6)
-			_, row = refRun(c.Model, c.desc, col, c.MaxDim, row, domains.GenInputs(w, c.Model, col, c.MaxDim, wt), wt)
+			wcol := col
+			if c.Model == "GR4J" && w.Bool(35) {
+				// a hot start after re-calibration: the carried states were produced under another
+				// X4, so the store lengths recorded in the state vector differ from ceil(X4)
+				wcol = cloneF(col)
+				// (only towards longer stores: the kernel indexes its unit hydrographs by the recorded
+				// lengths and does not survive stores that are shorter than X4 needs)
+				x4 := col[paramIndex(c.desc, "X4")]
+				wcol[paramIndex(c.desc, "X4")] = x4 + float64(w.Choose(int((4.0-x4)*10)+1))/10
+				row = initialStateRow(c.Model, c.desc, wcol, c.MaxDim)
+				c.ForeignX4 = true
+			}
+			_, row = refRun(c.Model, c.desc, wcol, c.MaxDim, row, domains.GenInputs(w, c.Model, wcol, c.MaxDim, wt), wt)
 		}
 		if !c.Warm && arbitraryStatesOK(c.Model) && w.Bool(35) {
 			// any state values, not only those the model itself produces (the properties
@@ -127,12 +140,15 @@ func drawCellCase(w *simrt.Tape, maxCells, maxT int) *cellCase {
 // cells' own widths.
 func (c *cellCase) padRows() {
 	c.own = c.own[:0]
-	w0 := len(c.stateRows[0])
+	w0 := 0
+	for _, r := range c.stateRows {
+		if len(r) > w0 {
+			w0 = len(r)
+		}
+	}
+	c.WidestFirst = len(c.stateRows[0]) == w0
 	for i, r := range c.stateRows {
 		c.own = append(c.own, len(r))
-		if len(r) > w0 {
-			panic(fmt.Sprintf("harness: %s cell %d has a wider state vector (%d) than cell 0 (%d)", c.Model, i, len(r), w0))
-		}
 		if len(r) < w0 {
 			c.Mixed = true
 			c.stateRows[i] = append(cloneF(r), make([]float64, w0-len(r))...)
@@ -192,7 +208,7 @@ func engineCells(rc *RunCtx) *Outcome {
 		}
 		outputs := mk3(c.COut, oN, oO, oT, ov)
 		model := setupModel(c.Model, params)
-		if k == 0 && !c.Warm && !c.Arbitrary {
+		if k == 0 && !c.Warm && !c.Arbitrary && c.WidestFirst {
 			// state initialisation per cell: InitialiseStates(N) of the vectorised model must give
 			// each cell the initial states of that cell alone (parameter sets repeat cyclically)
 			var initAll []float64
@@ -320,6 +336,9 @@ func engineCells(rc *RunCtx) *Outcome {
 	}
 	if c.Mixed {
 		o.probe("cells_with_different_state_widths(zero_padded_rows)")
+	}
+	if c.ForeignX4 {
+		o.probe("gr4j_states_from_another_x4")
 	}
 	if c.MaxDim > 32 {
 		o.probe("table_longer_than_32_rows")
